@@ -11455,6 +11455,18 @@ CK_RV SoftHSM::deriveSymmetric
 		// Check the key handle.
 		otherKey = (OSObject *)handleManager->getObject(*phOtherKey);
 		if (otherKey == NULL_PTR || !otherKey->isValid()) return CKR_OBJECT_HANDLE_INVALID;
+
+		// Check user credentials for the other key
+		CK_RV rvOther = haveRead(session->getState(),
+					 otherKey->getBooleanValue(CKA_TOKEN, false),
+					 otherKey->getBooleanValue(CKA_PRIVATE, true));
+		if (rvOther != CKR_OK)
+		{
+			if (rvOther == CKR_USER_NOT_LOGGED_IN)
+				INFO_MSG("User is not authorized");
+
+			return rvOther;
+		}
 		if (otherKey->getBooleanValue(CKA_PRIVATE, true)) {
 			bool bOK = token->decrypt(otherKey->getByteStringValue(CKA_VALUE), data);
 			if (!bOK) return CKR_GENERAL_ERROR;
